@@ -153,6 +153,11 @@ pub struct Outcome {
     pub samples: Vec<Value>,
     pub exhaustive: bool,
     pub notes: Vec<String>,
+    /// comparisons made directly in the harness (no model request): counted into evaluations
+    pub direct_evals: u64,
+    pub direct_distinct: u64,
+    /// enumerated probes of known-dirty inputs: {id, fails, what, detail}
+    pub probes: Vec<Value>,
 }
 
 impl Outcome {
@@ -212,8 +217,9 @@ impl Outcome {
             "property": self.property,
             "tier": self.tier,
             "seed": self.seed,
-            "evaluations": self.cases.len(),
-            "distinct_nontrivial": distinct.len(),
+            "evaluations": self.cases.len() as u64 + self.direct_evals,
+            "distinct_nontrivial": distinct.len() as u64 + self.direct_distinct,
+            "probes": self.probes,
             "per_op": per_op.iter().map(|(k, v)| (k.clone(), json!({"cases": v.0, "distinct_nontrivial": v.1}))).collect::<serde_json::Map<_, _>>(),
             "disagreements_total": disagreements.len(),
             "disagreements": trunc(&disagreements),
@@ -247,4 +253,80 @@ pub fn jobs() -> usize {
 
 pub fn repo_dir() -> PathBuf {
     PathBuf::from(std::env::var("VERIF_REPO").unwrap_or_else(|_| "/repo".to_string()))
+}
+
+/// Runs `f` over the items on `jobs()` threads, results in order.
+pub fn par_map<T: Sync, R: Send, F: Fn(&T) -> R + Sync>(items: &[T], f: F) -> Vec<R> {
+    let n = items.len();
+    let next = std::sync::atomic::AtomicUsize::new(0);
+    let results: std::sync::Mutex<Vec<Option<R>>> = std::sync::Mutex::new((0..n).map(|_| None).collect());
+    std::thread::scope(|s| {
+        for _ in 0..jobs().min(n.max(1)) {
+            s.spawn(|| loop {
+                let i = next.fetch_add(1, std::sync::atomic::Ordering::SeqCst);
+                if i >= n {
+                    break;
+                }
+                let r = f(&items[i]);
+                results.lock().unwrap()[i] = Some(r);
+            });
+        }
+    });
+    results.into_inner().unwrap().into_iter().map(|o| o.unwrap()).collect()
+}
+
+pub struct CliOut {
+    pub code: Option<i32>,
+    pub stdout: Vec<u8>,
+    pub stderr: String,
+    pub timed_out: bool,
+}
+
+/// Runs a command with `stdin_data` on its standard input and a wall-clock limit.
+pub fn run_cmd(cmd: &mut Command, stdin_data: &[u8], timeout: std::time::Duration) -> CliOut {
+    let mut child = match cmd.stdin(Stdio::piped()).stdout(Stdio::piped()).stderr(Stdio::piped()).spawn() {
+        Ok(c) => c,
+        Err(e) => return CliOut { code: None, stdout: vec![], stderr: format!("spawn: {}", e), timed_out: false },
+    };
+    let mut stdin = child.stdin.take().unwrap();
+    let data = stdin_data.to_vec();
+    let w = std::thread::spawn(move || {
+        let _ = stdin.write_all(&data);
+    });
+    let mut so = child.stdout.take().unwrap();
+    let mut se = child.stderr.take().unwrap();
+    let t1 = std::thread::spawn(move || {
+        let mut b = vec![];
+        let _ = std::io::Read::read_to_end(&mut so, &mut b);
+        b
+    });
+    let t2 = std::thread::spawn(move || {
+        let mut b = vec![];
+        let _ = std::io::Read::read_to_end(&mut se, &mut b);
+        b
+    });
+    let t0 = std::time::Instant::now();
+    let mut timed_out = false;
+    let status = loop {
+        match child.try_wait() {
+            Ok(Some(s)) => break Some(s),
+            Ok(None) => {
+                if t0.elapsed() > timeout {
+                    let _ = child.kill();
+                    timed_out = true;
+                    break child.wait().ok();
+                }
+                std::thread::sleep(std::time::Duration::from_millis(2));
+            }
+            Err(_) => break None,
+        }
+    };
+    let _ = w.join();
+    let stdout = t1.join().unwrap_or_default();
+    let stderr = String::from_utf8_lossy(&t2.join().unwrap_or_default()).into_owned();
+    CliOut { code: status.and_then(|s| s.code()), stdout, stderr, timed_out }
+}
+
+pub fn toolchain_lib() -> String {
+    std::env::var("LD_LIBRARY_PATH").unwrap_or_default()
 }
